@@ -20,6 +20,7 @@ pub enum Step {
     Error(ErrorKind),
     Eof,
     Misreport(usize), // how many bytes beyond the buffer length are claimed
+    Lie(usize),       // claims this many bytes (within the buffer) without writing any
 }
 
 /// A reader that follows a script and logs every read call.
@@ -163,6 +164,11 @@ impl Read for ScriptReader {
                 ));
                 Err(std::io::Error::new(kind, "scripted error"))
             }
+            Step::Lie(k) => {
+                let n = k.max(1).min(buf.len());
+                self.log.push(format!("{{\"e\":\"read\",\"buflen\":{},\"ret\":{{\"kind\":\"lie\",\"n\":{}}}}}", buf.len(), n));
+                Ok(n)
+            }
             Step::Misreport(extra) => {
                 let n = buf.len().saturating_add(extra.max(1));
                 self.log.push(format!(
@@ -188,7 +194,7 @@ fn outcome_json(o: &Obs<Result<Vec<u8>, (String, String)>>) -> String {
 }
 
 pub fn run_stream(out: &mut Out, v: &dyn Var, content: Content, script: Vec<Step>, use_plain: bool) {
-    let small = content.len() <= 70_000;
+    let small = content.len() <= 70_000 && !script.iter().any(|st| matches!(st, Step::Lie(_)));
     let all = if small { Some(content.materialize()) } else { None };
     let mut rd = ScriptReader { script, pos: 0, data: content, off: 0, log: Vec::new() };
     out.emit(Ev::new("stream_begin").str("v", v.name()).meas(0, ""));
@@ -416,12 +422,33 @@ pub fn run_c12big(out: &mut Out, rng: &mut Rng, only: Option<&str>, all: bool) {
     }
 }
 
+/// C17: readers that claim bytes they never wrote (within the buffer): the library then hashes
+/// what its buffer holds - zeros, or what earlier reads left there - never anything else.
+fn run_lies(out: &mut Out, rng: &mut Rng, v: &dyn Var) {
+    // dirty the heap first, so that a recycled allocation is not accidentally all zero
+    let junk: Vec<Vec<u8>> = (0..8).map(|i| vec![0xA5u8 ^ i as u8; MIB]).collect();
+    drop(junk);
+    for (lead, lie, tail) in [(0usize, 200usize, 0usize), (0, 60, 80), (150, 100, 0), (150, 400, 60), (90, 30, 0)] {
+        let mut script = Vec::new();
+        if lead > 0 {
+            script.push(Step::Deliver(lead));
+        }
+        script.push(Step::Lie(lie));
+        if tail > 0 {
+            script.push(Step::Deliver(tail));
+        }
+        script.push(Step::Eof);
+        run_stream(out, v, Content::Explicit(rng.bytes(lead + tail)), script, false);
+    }
+}
+
 /// C17: readers that claim more than the buffer holds.
 pub fn run_misreport(out: &mut Out, rng: &mut Rng, only: Option<&str>) {
     for v in VARIANTS.iter() {
         if only.map_or(false, |o| o != v.name()) {
             continue;
         }
+        run_lies(out, rng, *v);
         for extra in [1usize, MIB, 4 * MIB, usize::MAX / 2] {
             for lead in [0usize, 1] {
                 let mut script = Vec::new();
